@@ -72,3 +72,7 @@ package environment
 //@   ensures @C06 set.global: old(scopeOf(e, name, len(e.local))) < 0
 //@            ==> mapUpdated(e.global, name, val) && forall i in 0..len(e.local) :: mapUnchanged(e.local[i])
 //@   panics never
+
+// The compiled-regexp cache is shared by every evaluator of the process.
+//@ func cachedRegexp(reg string) (r *regexp.Regexp, err error)
+//@   guarded_global regCache regCacheMutex
